@@ -132,6 +132,10 @@ void Body(Tape& t, Outcome& o) {
     MeshGL64 g2 = m2.GetMeshGL64();
     if (g.numProp != g2.numProp) { o.fail("roundtrip:numProp", ""); return; }
     auto c1 = MakeCanon(g, true), c2 = MakeCanon(g2, true);
+    // the normal of a zero-area triangle is not determined (0/0): on meshes with degenerate triangles (e.g. the
+    // flat "hull" of collinear points, F12) the normal channels are not compared
+    const bool degenerateMesh = m.NumDegenerateTris() > 0;
+    if (degenerateMesh) { for (auto& tr : c1.tris) tr.normals.clear(); for (auto& tr : c2.tris) tr.normals.clear(); o.counters["normals-skipped-degenerate"]++; }
     if (!SameCanon(c1, c2, o, "64")) return;
     if (m2.GetTolerance() < m.GetTolerance()) { o.fail("roundtrip:tolerance-shrank", verif::fmt("%.17g -> %.17g", m.GetTolerance(), m2.GetTolerance())); return; }
     if (m2.NumTri() == m.NumTri() && m2.NumVert() < m.NumVert()) {
@@ -141,7 +145,8 @@ void Body(Tape& t, Outcome& o) {
       for (auto v : g.triVerts) if (size_t(v) < used.size()) used[v] = 1;
       size_t stranded = 0;
       for (char u : used) stranded += !u;
-      if (stranded > 0 && m.NumVert() - m2.NumVert() == stranded && o.desc.str().find("RefineTo") != std::string::npos) { o.known("F16-refine-stranded-vertex", "roundtrip:counts-stranded-vertex", verif::fmt("export has %zu vertices referenced by no triangle; NumVert %zu->%zu", stranded, m.NumVert(), m2.NumVert())); return; }
+      // (the stranded vertex is either exported unreferenced, or counted by NumVert() and not exported at all)
+      if ((stranded == 0 || m.NumVert() - m2.NumVert() == stranded) && o.desc.str().find("RefineTo") != std::string::npos) { o.known("F16-refine-stranded-vertex", "roundtrip:counts-stranded-vertex", verif::fmt("export has %zu vertices referenced by no triangle; NumVert %zu->%zu", stranded, m.NumVert(), m2.NumVert())); return; }
     }
     if (m2.NumVert() != m.NumVert() || m2.NumTri() != m.NumTri()) { o.fail("roundtrip:counts", verif::fmt("NumVert %zu->%zu NumTri %zu->%zu", m.NumVert(), m2.NumVert(), m.NumTri(), m2.NumTri())); return; }
     // same surface under refinement (tangents survive the trip)
@@ -160,6 +165,7 @@ void Body(Tape& t, Outcome& o) {
     if (m3.Status() != Manifold::Error::NoError) { o.fail("roundtrip:import32-status", verif::fmt("Status %d", int(m3.Status()))); return; }
     MeshGL f2 = m3.GetMeshGL();
     auto d1 = MakeCanon(f, true), d2 = MakeCanon(f2, true);
+    if (degenerateMesh) { for (auto& tr : d1.tris) tr.normals.clear(); for (auto& tr : d2.tris) tr.normals.clear(); }
     if (!SameCanon(d1, d2, o, "32")) return;
     if (m3.NumTri() != m.NumTri() || m3.NumVert() != m.NumVert()) { o.fail("roundtrip:counts32", verif::fmt("NumVert %zu->%zu NumTri %zu->%zu", m.NumVert(), m3.NumVert(), m.NumTri(), m3.NumTri())); return; }
     if (f.NumVert() == g.NumVert())
